@@ -31,14 +31,47 @@ def shape(msg):
     return re.sub(r"\d+", "N", m)[:60]
 
 
+def directed_cases(rng, tier):
+    """near-valid programs aimed at the corners of the statement that corpus mutants rarely reach:
+    (1) an error inside a function of an IMPORTED file (or the same file, as control) that is reached from a comptime block which has to be
+        evaluated during type checking: the error must be reported, the program flagged unsafe, and the erroneous function must not be run
+        (it prints a marker through libc puts when the compiler executes it);
+    (2) compound assignments whose value type does not go with the operator (`i %= 2.5`, `i <<= 1.5`, `b += true`): an error, not a crash."""
+    out = []
+    errs = [("assign_immutable", "k :: 3;\n    k = 4;"), ("literal_too_big", "b : u8 = 300;"), ("type_mismatch", "q : i32 = 1;\n    r : bool = q;"),
+            ("undefined_name", "z := not_defined_anywhere + 1;"), ("immutable_ref", "v : i64 = 1;\n    p := ^v;\n    p^ = 2;")]
+    uses = [("array_len", "buf : [comptime {{ {call} }}]i32;"), ("const_local", "n :: comptime {{ {call} }};"), ("comptime_arg", "w := g(comptime {{ {call} }});")]
+    k = 0
+    for en, err in errs:
+        for un, use in uses:
+            for where in ("imported", "same_file"):
+                if tier == "quick" and (k + len(en)) % 3 and where == "same_file":
+                    k += 1
+                    continue
+                k += 1
+                fn = f"puts :: (s: str) -> i32 extern;\nsize :: () -> usize {{\n    {err}\n    puts(\"CT-MARK-{k}\");\n    4\n}}\n"
+                call = "util.size()" if where == "imported" else "size()"
+                main = ("util :: #import(\"util.capy\");\n" if where == "imported" else fn) + "g :: (comptime c: usize) -> usize { c }\n" + \
+                    "main :: () -> i32 {\n    " + use.format(call=call) + "\n    0\n}\n"
+                files = {"main.capy": main}
+                if where == "imported":
+                    files["util.capy"] = fn
+                out.append((files, f"directed:comptime_reaches_error:{where}:{un}:{en}"))
+    for ty, val in (("i32", "7"), ("u8", "7"), ("i64", "7")):
+        for op in ("%=", "<<=", ">>=", "&=", "|="):
+            out.append(({"main.capy": f"main :: () -> i32 {{\n    t : {ty} = {val};\n    t {op} 2.5;\n    0\n}}\n"}, f"directed:compound_float:{op}:{ty}"))
+    out.append(({"main.capy": "main :: () -> i32 {\n    t : bool = true;\n    t += true;\n    0\n}\n"}, "directed:compound_bool:+=:bool"))
+    return out
+
+
 def one(job):
     idx, text, kind, work = job
     d = os.path.join(work, f"c{idx}")
     os.makedirs(d, exist_ok=True)
-    with open(os.path.join(d, "main.capy"), "w", encoding="utf-8") as fh:
-        fh.write(text)
+    files_in = text if isinstance(text, dict) else {"main.capy": text}
+    R.write_files(d, files_in)
     pr, rep = P.run_pipeline(d)
-    c = R.compile_capy(d, {"main.capy": text})
+    c = R.compile_capy(d, files_in)
     linked = None
     if c.accepted:
         r = C.run_proc(["gcc", c.obj, C.RT_OBJ, "-o", os.path.join(d, "prog"), "-lm", "-Wl,--unresolved-symbols=ignore-all"], cwd=d, cpu_s=60, mem_gb=8)
@@ -64,6 +97,8 @@ def run(tier, seed):
         t = rng.pick(base)
         m, kind = P.semantic_mutant(rng, t)
         jobs.append((len(jobs), m, kind, work))
+    for files_d, kind_d in directed_cases(rng, tier):
+        jobs.append((len(jobs), files_d, kind_d, work))
     kfdir = os.path.join(C.VERIF, "kf")
     for f in sorted(os.listdir(kfdir)):
         if f.endswith(".capy"):
@@ -80,7 +115,7 @@ def run(tier, seed):
             viol.append({"key": key, "sig": sig, "what": what, "witness": wit})
 
     for idx, kind, text, pr, rep, c, linked in results:
-        files = {"main.capy": text}
+        files = text if isinstance(text, dict) else {"main.capy": text}
         if c.timed_out or pr.timed_out:
             inconc.append(f"case {idx} ({kind}): watchdog")
             continue
@@ -99,6 +134,16 @@ def run(tier, seed):
             add_v("neither", f"neither|rc{c.rc}", f"the CLI neither built an object nor reported an error (rc={c.rc}): {c.brief()[:300]}", {"files": files})
             continue
         counters["accepted" if c.accepted else "rejected"] += 1
+        if kind.startswith("directed:"):
+            counters["directed_cases"] = counters.get("directed_cases", 0) + 1
+            # (the compound-assignment family only has to end without an internal error, which the general rules above judge:
+            #  whether `i &= 2.5` is an error at all is not this property's subject)
+            if c.accepted and kind.startswith("directed:comptime_reaches_error"):
+                add_v("accepted_erroneous", "accepted_erroneous|" + ":".join(kind.split(":")[1:3]), f"a program with a seeded error ({kind}) is built without any error", {"files": files})
+            # the marker as a line of its own is what puts() printed; inside a diagnostic's source snippet it is part of a longer line
+            if any(l.strip().startswith("CT-MARK-") for l in c.out.splitlines()):
+                add_v("erroneous_code_executed", "erroneous_code_executed|" + ":".join(kind.split(":")[2:4]),
+                      f"a function that contains a reported error was executed at compile time ({kind}): its marker is in the compiler's output", {"files": files})
         if c.accepted and linked is not None and not linked[0]:
             add_v("link", "link|" + shape(linked[1]), f"the object of an accepted program does not link: {linked[1]}", {"files": files})
         # (a) library level
